@@ -562,6 +562,123 @@ impl Ctx<'_> {
     }
 }
 
+impl Seq {
+    fn sub(&self, idx: &[usize]) -> Seq {
+        match self {
+            Seq::Arr(v, _) => Seq::Arr(idx.iter().map(|i| v[*i].clone()).collect(), String::new()),
+            Seq::Str(c) => Seq::Str(idx.iter().map(|i| c[*i]).collect()),
+        }
+    }
+}
+
+impl Ctx<'_> {
+    /// two postfix steps in a row (`s[a:b:c][i]`, `s[a:b:c][d:e:f]`, `std.len(s[a:b:c])`): the second step must see
+    /// exactly the sequence the first one denotes - written in place, through a name, with the sequence / the
+    /// bounds constant or not (an implementation may fuse the two steps)
+    fn chains(&mut self, seq: &Seq, cfg: &Cfg, cell: &mut u64) {
+        let n = seq.len() as i64;
+        let firsts: Vec<(Option<i64>, Option<i64>, Option<i64>)> = {
+            let mut v = Vec::new();
+            for a in [None, Some(0), Some(1), Some(2), Some(-1), Some(-2), Some(n), Some(n + 1)] {
+                v.push((a, None, None));
+            }
+            for b in [Some(0), Some(1), Some(-1), Some(n - 1), Some(n + 1)] {
+                v.push((None, b, None));
+                v.push((Some(1), b, None));
+            }
+            for c in [Some(2), Some(-1), Some(-2), Some(0)] {
+                v.push((None, None, c));
+                v.push((Some(1), None, c));
+                v.push((Some(-1), Some(0), c));
+            }
+            v
+        };
+        let (pt, rt_el, rt_seq) = match seq {
+            Seq::Arr(..) => ("[any]", "any", "[any]"),
+            Seq::Str(_) => ("string", "string", "string"),
+        };
+        let hide = if seq.kind() == "array" { "ida" } else { "ids" };
+        for (a, b, c) in firsts {
+            *cell += 1;
+            if !cfg.owns(*cell) {
+                continue;
+            }
+            let s1 = slice_text(a, b, c, false);
+            let mid = seq.sub(&py_slice(seq.len(), a, b, c));
+            let m = mid.len() as i64;
+            self.rep.count("chain_first_steps");
+            // then len
+            let expected = Ok(Variable::Int(m));
+            self.literal(seq, "chain:len", &format!("std.len({}{s1})", seq.literal()), &expected);
+            self.runtime(seq, "chain:len", &format!("chain len {pt} {s1}"), &format!("(s: {pt}) -> int {{ return std.len(s{s1}) }}"), vec![seq.value()], &format!("std.len(s{s1})"), &expected);
+            // then an index
+            for i in -(m + 2)..=(m + 2) {
+                let expected = match index_oracle(mid.len(), i) {
+                    Some(p) => Ok(mid.elem(p)),
+                    None => Err(ErrKind::Index),
+                };
+                let s2 = format!("[{}]", int_lit(i));
+                self.rep.distinct_case(&("chain-index", seq.literal(), a, b, c, i));
+                self.literal(seq, "chain:index", &format!("{}{s1}{s2}", seq.literal()), &expected);
+                self.literal(seq, "chain:index:hidden-sequence", &format!("{HALF_PRELUDE}{hide}({}){s1}{s2}", seq.literal()), &expected);
+                self.literal(seq, "chain:index:named", &format!("{HALF_PRELUDE}t := {hide}({}){s1}; t{s2}", seq.literal()), &expected);
+                self.literal(seq, "chain:index:hidden-index", &format!("{HALF_PRELUDE}{}{s1}[hi({})]", seq.literal(), int_lit(i)), &expected);
+                self.runtime(seq, "chain:index", &format!("chain idx {pt} {s1}{s2}"), &format!("(s: {pt}) -> {rt_el} {{ return s{s1}{s2} }}"), vec![seq.value()], &format!("s{s1}{s2}"), &expected);
+                self.runtime(seq, "chain:index:arg", &format!("chain idx-arg {pt} {s1}"), &format!("(s: {pt}, i: int) -> {rt_el} {{ return s{s1}[i] }}"), vec![seq.value(), Variable::Int(i)], &format!("s{s1}[i]"), &expected);
+            }
+            // then another slice
+            for (d, e, f) in [(Some(1), None, None), (None, Some(-1), None), (None, None, Some(-1)), (Some(-2), None, None), (Some(0), Some(m), Some(2)), (None, None, None), (Some(m), None, None), (Some(-1), None, Some(-1))] {
+                let idx2 = py_slice(mid.len(), d, e, f);
+                let expected = Ok(mid.select(&idx2));
+                let s2 = slice_text(d, e, f, false);
+                self.rep.distinct_case(&("chain-slice", seq.literal(), a, b, c, d, e, f));
+                self.literal(seq, "chain:slice", &format!("{}{s1}{s2}", seq.literal()), &expected);
+                self.literal(seq, "chain:slice:hidden-sequence", &format!("{HALF_PRELUDE}{hide}({}){s1}{s2}", seq.literal()), &expected);
+                self.runtime(seq, "chain:slice", &format!("chain sl {pt} {s1}{s2}"), &format!("(s: {pt}) -> {rt_seq} {{ return s{s1}{s2} }}"), vec![seq.value()], &format!("s{s1}{s2}"), &expected);
+            }
+        }
+    }
+
+    /// a bound (or the index) of one sequence operation computed by slicing / indexing / measuring *another* sequence:
+    /// the inner operation must not disturb the outer one (shared scratch state, evaluation order)
+    fn nested_bounds(&mut self, outer: &Seq, inner: &Seq) {
+        let k_of = |a: Option<i64>, b: Option<i64>, c: Option<i64>| py_slice(inner.len(), a, b, c).len() as i64;
+        let (opt, ort) = match outer {
+            Seq::Arr(..) => ("[any]", "[any]"),
+            Seq::Str(_) => ("string", "string"),
+        };
+        let ipt = if inner.kind() == "array" { "[any]" } else { "string" };
+        let oel = if outer.kind() == "array" { "any" } else { "string" };
+        for (a, b, c) in [(Some(0), None, None), (Some(1), None, None), (None, Some(1), None), (None, None, Some(2)), (Some(-1), None, None), (None, Some(-1), None)] {
+            let k = k_of(a, b, c);
+            let inner_sl = slice_text(a, b, c, false);
+            let kexpr_lit = format!("std.len({}{inner_sl})", inner.literal());
+            self.rep.count("nested_bound_cases");
+            // start / stop / step position and index position
+            let cases: Vec<(&str, String, Result<Variable, ErrKind>)> = vec![
+                ("start", "[K:]".into(), Ok(outer.select(&py_slice(outer.len(), Some(k), None, None)))),
+                ("stop", "[:K]".into(), Ok(outer.select(&py_slice(outer.len(), None, Some(k), None)))),
+                ("step", "[::K]".into(), Ok(outer.select(&py_slice(outer.len(), None, None, Some(k))))),
+                ("start-stop", "[K:K + 1]".into(), Ok(outer.select(&py_slice(outer.len(), Some(k), Some(k + 1), None)))),
+                ("index", "[K]".into(), match index_oracle(outer.len(), k) { Some(p) => Ok(outer.elem(p)), None => Err(ErrKind::Index) }),
+                ("neg-index", "[-K - 1]".into(), match index_oracle(outer.len(), -k - 1) { Some(p) => Ok(outer.elem(p)), None => Err(ErrKind::Index) }),
+            ];
+            for (pos, shape, expected) in cases {
+                let rt = if pos.contains("index") { oel } else { ort };
+                self.rep.distinct_case(&("nested-bound", outer.literal(), inner.literal(), a, b, c, pos));
+                // everything constant
+                self.literal(outer, &format!("nested-bound:{pos}"), &format!("{}{}", outer.literal(), shape.replace('K', &kexpr_lit)), &expected);
+                // both sequences arrive at run time
+                let ftext = format!("(s: {opt}, t: {ipt}) -> {rt} {{ return s{} }}", shape.replace('K', &format!("std.len(t{inner_sl})")));
+                self.runtime(outer, &format!("nested-bound:{pos}"), &format!("nb {opt} {ipt} {pos} {inner_sl}"), &ftext, vec![outer.value(), inner.value()], &ftext, &expected);
+                // the bound comes from a function that slices
+                let ftext = format!("(s: {opt}, t: {ipt}) -> {rt} {{ k := (u: {ipt}) -> int {{ return std.len(u{inner_sl}) }}; return s{} }}", shape.replace('K', "k(t)"));
+                self.runtime(outer, &format!("nested-bound:{pos}:via-function"), &format!("nbf {opt} {ipt} {pos} {inner_sl}"), &ftext, vec![outer.value(), inner.value()], &ftext, &expected);
+            }
+        }
+    }
+}
+
 fn show(e: &Result<Variable, ErrKind>) -> String {
     match e {
         Ok(v) => canon(v),
@@ -583,6 +700,23 @@ pub fn run(cfg: &Cfg, rep: &mut Report) {
     let seqs = sequences(true);
     let max_exhaustive = 5;
     let mut cell = 0u64;
+    // two-step chains and bounds computed from another sequence
+    for seq in &seqs {
+        if deadline.over() {
+            ctx.rep.inconclusive("budget-cut-chains");
+            break;
+        }
+        ctx.chains(seq, cfg, &mut cell);
+    }
+    for (oi, outer) in seqs.iter().enumerate() {
+        for (ii, inner) in seqs.iter().enumerate() {
+            cell += 1;
+            if oi == ii || !cfg.owns(cell) || outer.len() == 0 || inner.len() == 0 || (oi + 2 * ii) % 3 != 0 {
+                continue;
+            }
+            ctx.nested_bounds(outer, inner);
+        }
+    }
     for seq in &seqs {
         cell += 1;
         if cfg.owns(cell) {
